@@ -77,7 +77,7 @@ func runLazy(c *hx.Ctx, seq *Seq) {
 		}
 	}
 	// the last process may never have used its filter: force it now (the model's last Restart includes it)
-	_, _ = queryEvents(w.t, 1, true, w.lo)
+	forceInit(w.t, w.inner, w.lo)
 	w.fd.OnWrite = nil
 	defer func() {
 		for _, img := range images {
